@@ -2,13 +2,15 @@
 import ast
 import re
 from ..front import dotted, const_value, unparse, walk_no_nested, parent_map, kwarg
-from ..core import holds, violation, unrecognised
+from ..core import holds, violation, unrecognised, named
 from ..rules import pure_params
 from .c08 import before_after, calls_named, return_order
 
 ID = "C10"
 ANCHORS = 'variant_effect.substitution_effect,variant_effect.deletion_effect,variant_effect.insertion_effect'.split(",")
 MIN_INSTANCES = 16
+# rule families whose findings in this module are derived by an engine (not by comparing spellings): exempt from the rewrite gate
+SEMANTIC_RULES = {"R-MASK", "R-PURE"}
 EXPLANATION = (
     "R-MASK: abstract interpretation over element-value sets of the indicator tensors in deletion_effect "
     "(zeros_like -> {0}, index-store of 1 -> {0,1}, comparison -> bool, + adds sets, 1 - s maps, |/&/~ stay boolean): the "
@@ -400,12 +402,12 @@ def insertion_rules(repo):
     elif asc and itv == asc[0].targets[0].id and offset:
         out.append(holds("R-ORDER", fi, role, "ascending order with a running offset", asc[0]))
     elif asc and itv == asc[0].targets[0].id:
-        out.append(violation("R-ORDER", fi, role, "insertions are applied in ascending order without offsetting later coordinates", asc[0]))
+        out.append(named("R-ORDER", fi, role, "insertions are applied in ascending order without offsetting later coordinates", asc[0]))
     elif not sorts:
-        out.append(violation("R-ORDER", fi, role, "the rows are applied in list order (`for ... in %s`) without sorting by coordinate: "
+        out.append(named("R-ORDER", fi, role, "the rows are applied in list order (`for ... in %s`) without sorting by coordinate: "
                              "an insertion left of an already-applied one shifts it" % itv, il))
     elif re.search(r"argsort\(%s\[:, [02]\]" % svar, " ".join(unparse(s.value) for s in sorts)):
-        out.append(violation("R-ORDER", fi, role, "rows are sorted by a column other than the coordinate", sorts[0]))
+        out.append(named("R-ORDER", fi, role, "rows are sorted by a column other than the coordinate", sorts[0]))
     else:
         out.append(unrecognised("R-ORDER", fi, role, "sorting idiom `%s` not recognised" % unparse(sorts[0].value), sorts[0]))
     # each insertion through ersatz.insert at its own coordinate with a one-hot column of its character
